@@ -67,6 +67,12 @@ fn main() {
         ("CHANNEL-NUMBER with RFFU bits", wire(0x000C, &[0x40, 0x01, 0xAB, 0xCD]), ChannelNumber::new(0x4001).into()),
         ("MAPPED-ADDRESS with a non-zero first octet", wire(0x0001, &[0x7E, 0x01, 0x12, 0x34, 192, 0, 2, 1]), MappedAddress::new(IpAddr::V4(Ipv4Addr::new(192, 0, 2, 1)), 0x1234).into()),
         ("REQUESTED-TRANSPORT with RFFU bits", wire(0x0019, &[17, 0xFF, 0xEE, 0xDD]), RequestedTrasport::default().into()),
+        ("ICMP with a non-zero reserved half-word (low bit)", wire(0x8004, &[0x00, 0x01, 0x06, 0x01, 9, 8, 7, 6]), Icmp::new(IcmpType::new(3).unwrap(), IcmpCode::new(1).unwrap(), [9, 8, 7, 6]).into()),
+        ("ICMP with a non-zero reserved half-word (all bits)", wire(0x8004, &[0xFF, 0xFF, 0x06, 0x01, 9, 8, 7, 6]), Icmp::new(IcmpType::new(3).unwrap(), IcmpCode::new(1).unwrap(), [9, 8, 7, 6]).into()),
+        ("EVEN-PORT with RFFU bits", wire(0x0018, &[0xFF]), EvenPort::new(true).into()),
+        ("EVEN-PORT (R = 0) with RFFU bits", wire(0x0018, &[0x7F]), EvenPort::new(false).into()),
+        ("REQUESTED-ADDRESS-FAMILY with non-zero reserved octets", wire(0x0017, &[0x02, 0xAA, 0xBB, 0xCC]), RequestedAddressFamily::new(AddressFamily::IPv6).into()),
+        ("ERROR-CODE with non-zero reserved bits", wire(0x0009, &[0xFF, 0xFF, 0xFC, 0x14]), stun_rs::attributes::stun::ErrorCode::new(stun_rs::ErrorCode::new(420, "").unwrap()).into()),
     ];
     for (name, bytes, want) in reserved {
         match MessageDecoderBuilder::default().build().decode(&bytes) {
